@@ -445,6 +445,7 @@ func checkC20(c *Ctx, r *Report) {
 			}
 		}
 	}
+	c20Extra4(c, r)
 	r.NotCov = append(r.NotCov, "numeric accuracy of degrees/minutes; minutes < 60 (rounding of 59.99995.. to 60.0000)", "validity of mycall (From/Mbo) supplied by the caller")
 }
 
